@@ -367,9 +367,12 @@ func (w *World) chanClose(fr *frame, pos token.Pos, cv value) {
 	if c.closed {
 		panic(targetPanic{v: iface{w.runtimeErrorT, "close of closed channel"}, where: w.where(fr, pos)})
 	}
+	w.schedPoint("close")
+	if c.closed {
+		panic(targetPanic{v: iface{w.runtimeErrorT, "close of closed channel"}, where: w.where(fr, pos)})
+	}
 	w.chanTouch(c)
 	c.closed = true
-	w.schedPoint("close")
 }
 
 func (w *World) selectOp(fr *frame, instr *ssa.Select) value {
